@@ -261,7 +261,8 @@ _SIGALG = {("rsa", "sha1"): "rsassa_pkcs1v15", ("rsa", "sha256"): "rsassa_pkcs1v
            ("dsa", "sha1"): "sha1_dsa", ("dsa", "sha256"): "sha256_dsa"}
 
 
-def signer_info(sf, keyname, alg, signed_attrs, refer=None, sign_over=None, attr_digest_of=None, declare_alg=None):
+def signer_info(sf, keyname, alg, signed_attrs, refer=None, sign_over=None, attr_digest_of=None, declare_alg=None,
+                attr_digest_value=None):
     """One SignerInfo (asn1crypto object).
 
     keyname       fixed key that produces the signature value
@@ -269,6 +270,8 @@ def signer_info(sf, keyname, alg, signed_attrs, refer=None, sign_over=None, attr
     signed_attrs  True: contentType + messageDigest attributes, signature over their DER SET OF encoding
     sign_over     None | "sf": with signed attributes, (wrongly) sign the .SF itself instead of the attributes
     attr_digest_of  bytes whose digest goes into messageDigest (default: the .SF)
+    attr_digest_value  literal bytes for the messageDigest attribute (overrides attr_digest_of; any length, may be empty);
+                  the signature is still computed validly over the resulting attributes
     declare_alg   digest algorithm written into the digestAlgorithm field (default: alg, the one really used)
     """
     from asn1crypto import cms, x509
@@ -282,7 +285,8 @@ def signer_info(sf, keyname, alg, signed_attrs, refer=None, sign_over=None, attr
         attrs = cms.CMSAttributes([
             cms.CMSAttribute({"type": "content_type", "values": ["data"]}),
             cms.CMSAttribute({"type": "message_digest",
-                              "values": [hashlib.new(alg, sf if attr_digest_of is None else attr_digest_of).digest()]})])
+                              "values": [attr_digest_value if attr_digest_value is not None else
+                                         hashlib.new(alg, sf if attr_digest_of is None else attr_digest_of).digest()]})])
         si["signed_attrs"] = attrs
         tbs = sf if sign_over == "sf" else attrs.dump()
         assert attrs.dump()[:1] == b"\x31"
